@@ -6,7 +6,7 @@ and `auto_learn` never panic, never lower a frequency, and keep the bound.  Also
 exactly the chosen phrase is one `learn_phrase` call, and strict dominance in the merged lookup makes the
 phrase `find_best_phrase`'s choice.
 -/
-namespace Chewing
+namespace Chewing.Learn
 open Gen.Learn Gen.Est
 
 /-- every system and user frequency is within `MAX_USER_FREQ` -/
@@ -263,4 +263,4 @@ theorem bestPhrase_of_dominant (ctx : LearnCtx) (u : UserMap) (key : List Nat) (
     have := hdom (0 :: x) (by intro h; exact absurd (congrArg List.length h) (by simp))
     omega
 
-end Chewing
+end Chewing.Learn
